@@ -51,6 +51,105 @@ theorem C17_window_bound (mx : Nat) (dq : List Nat) (x : Nat) :
   · left; simp only [List.length_drop, List.length_append, List.length_cons, List.length_nil]; omega
   · right; rfl
 
+/-! ### what the window holds
+
+  `C17_window_bound` bounds the window; the following say what is in it: for every
+  sequence of answered end-to-end ids of an origin, the window is exactly the last
+  `mx` of them (`C17_window_is_last_answers`), and `_record_answer` is that
+  append (`C17_record_known` / `C17_record_new`).  Together with `C17_reject` /
+  `C17_no_false_reject`: a T-flagged repeat is rejected iff its id is among the
+  configured number of most recent answers to its origin. -/
+
+
+/-- the bounded-deque append of `_record_answer` (`deque(maxlen=mx).append`) -/
+def pushWin (mx : Nat) (dq : List Nat) (x : Nat) : List Nat :=
+  if (dq ++ [x]).length > mx then (dq ++ [x]).drop ((dq ++ [x]).length - mx) else dq ++ [x]
+
+/-- the last `mx` elements -/
+def lastN (mx : Nat) (l : List Nat) : List Nat := l.drop (l.length - mx)
+
+theorem C17_window_step (mx : Nat) (ys : List Nat) (x : Nat) : pushWin mx (lastN mx ys) x = lastN mx (ys ++ [x]) := by
+  unfold pushWin lastN
+  by_cases h : ys.length < mx
+  · have h0 : ys.length - mx = 0 := by omega
+    have h1 : (ys ++ [x]).length - mx = 0 := by simp; omega
+    simp only [h0, List.drop_zero, h1]
+    have : ¬ (ys ++ [x]).length > mx := by simp; omega
+    simp
+  · have hge : mx ≤ ys.length := by omega
+    have hl : (List.drop (ys.length - mx) ys).length = mx := by simp; omega
+    have hgt : (List.drop (ys.length - mx) ys ++ [x]).length > mx := by simp [hl]
+    simp only [hgt, if_true]
+    have e1 : (List.drop (ys.length - mx) ys ++ [x]).length - mx = 1 := by simp [hl]
+    rw [e1]
+    have e2 : (ys ++ [x]).length - mx = (ys.length - mx) + 1 := by simp; omega
+    rw [e2]
+    rw [← List.drop_drop]
+    congr 1
+    rw [List.drop_append_of_le_length (by omega)]
+
+theorem C17_window_is_last_answers (mx : Nat) (ys xs : List Nat) :
+    xs.foldl (pushWin mx) (lastN mx ys) = lastN mx (ys ++ xs) := by
+  induction xs generalizing ys with
+  | nil => simp
+  | cons x xs ih =>
+    rw [List.foldl_cons, C17_window_step, ih]
+    simp
+
+
+theorem find_map_key {α β : Type} [BEq α] (l : List (α × β)) (k : α) (f : α × β → α × β)
+    (hf : ∀ p, (f p).1 = p.1) :
+    (l.map f).find? (·.1 == k) = (l.find? (·.1 == k)).map f := by
+  induction l with
+  | nil => rfl
+  | cons x xs ih =>
+    simp only [List.map_cons, List.find?_cons, hf x]
+    cases h : x.1 == k
+    · simpa using ih
+    · rfl
+
+/-- Recording an answer for an origin that already has a window appends the
+    answer's end-to-end id to that origin's bounded window. -/
+theorem C17_record_known (s : St) (cid : Nat) (m : AMsg) (k : Nat × Nat × Nat) (origin : Option String) (mx : Nat) (dq : List Nat)
+    (ho : s.originWaiting.find? (·.1 == originKey cid m) = some (k, origin))
+    (hw : s.sentAnswers.find? (·.1 == origin) = some (origin, (mx, dq))) :
+    (recordAnswerState s cid m).sentAnswers.find? (·.1 == origin) = some (origin, (mx, pushWin mx dq m.e2e)) := by
+  unfold recordAnswerState
+  simp only [ho]
+  have hany : s.sentAnswers.any (·.1 == origin) = true := by
+    rw [List.any_eq_true]
+    exact ⟨(origin, (mx, dq)), List.mem_of_find?_eq_some hw, by simp⟩
+  simp only [hany, if_true]
+  rw [find_map_key _ origin _ (by intro p; split <;> rfl), hw]
+  simp [pushWin]
+
+/-- …and for an origin without a window it starts one (of the configured size). -/
+theorem C17_record_new (s : St) (cid : Nat) (m : AMsg) (k : Nat × Nat × Nat) (origin : Option String)
+    (ho : s.originWaiting.find? (·.1 == originKey cid m) = some (k, origin))
+    (hw : s.sentAnswers.any (·.1 == origin) = false) :
+    (recordAnswerState s cid m).sentAnswers.find? (·.1 == origin) = some (origin, (s.cfg.rq, pushWin s.cfg.rq [] m.e2e)) := by
+  unfold recordAnswerState
+  simp only [ho, hw, Bool.false_eq_true, if_false]
+  rw [List.find?_append]
+  have hnone : s.sentAnswers.find? (·.1 == origin) = none := by
+    rw [List.find?_eq_none]
+    intro x hx
+    have := List.any_eq_false.mp hw x hx
+    simpa using this
+  simp only [hnone, Option.none_or, List.find?_cons, beq_self_eq_true]
+  unfold pushWin
+  by_cases h : s.cfg.rq = 0
+  · simp [h]
+  · have : ¬ (1 > s.cfg.rq) := by omega
+    simp [this]
+
+/-- from a fresh origin: after answering the ids `xs` (in that order) the window holds exactly the last `mx` of them -/
+theorem C17_window_from_empty (mx : Nat) (xs : List Nat) : xs.foldl (pushWin mx) [] = lastN mx xs := by
+  have := C17_window_is_last_answers mx [] xs
+  simpa [lastN] using this
+
+example : [1, 2, 3, 4, 5].foldl (pushWin 2) [] = [4, 5] := by decide
+
 theorem C17_config : Config.originKeyPerConn = true := rfl
 
 end DV.Node
